@@ -375,10 +375,10 @@ pub fn snapshot_all_pendding_dbs(dbs: &Arc<Databases>) {
 
 pub fn snapshot_keys(dbs: &Arc<Databases>) {
     if !dbs.is_oplog_valid.load(Ordering::Relaxed) {
-        let keys_map = {
-            let keys_map = dbs.keys_map.read().unwrap();
-            keys_map.clone()
-        };
+        // The keys map stays locked until the flag says valid: a key registered (and logged) between the
+        // copy and the flag write would be missing from the stored map while the log that refers to it is kept
+        let keys_map_guard = dbs.keys_map.read().unwrap();
+        let keys_map = keys_map_guard.clone();
         log::debug!("Will snapshot the keys {}", keys_map.len());
         write_keys_map_to_disk(keys_map);
         mark_op_log_as_valid(dbs).unwrap();
